@@ -25,6 +25,27 @@ Two further case kinds watch the wrappers themselves:
     observed orders (number of failed retries, release before/after commit()) are counted.  In "async_multi" cases 2..4
     AsyncWriters queue behind one lock holder and race for the lock; whatever order they win in, the index must end up
     holding exactly the model's documents (their transactions touch disjoint keys).
+
+A fourth kind, "groups", runs the product machinery over HIERARCHICAL documents: every transaction is a sequence of
+outermost groups (a tree of documents with strict levels l0 > l1 > l2 > l3, written in pre-order inside 1..3 nested
+writer.group() / start_group()..end_group() contexts; a long outer group holds many small inner groups, also groups of one
+document) with a few ungrouped documents in between.  The history goes through the reference configuration and through
+1-2 MpWriter configurations (procs 2..4, batchsize 1..7 and 100, merged and multisegment, in a subprocess) plus 1-2 of
+{plain writer with storage/packing/pool variants, BufferedWriter that cannot flush inside a group, AsyncWriter in front of a
+plain writer}.  Besides the usual dump / probe / statistics / optimize comparison two monitors watch what groups are for:
+  (a) adjacency: in document-number order (leaf readers' all_stored_fields(), cross-checked with reader.iter_docs()) the
+      members of every outermost group form one contiguous run, in insertion order, inside one segment - after the commit
+      and again after a final optimize; the relative order of different outermost groups and of ungrouped documents is free;
+  (b) nested queries: NestedParent / NestedChildren queries (parent set = one level, or "every document not below level j";
+      sub-query restricted to the levels for which the answer is decided by the hierarchy alone) return exactly what a dict
+      model of the trees says (ancestor at level j / all descendants), for the reference and for every configuration.
+The reach counter c18.groups.mp.runs_inner_group_closes_on_full_buffer counts MpWriter runs in which an inner group closes
+inside a still open outer group while the document buffer already holds >= batchsize documents (the situation in which a
+writer that hands the buffer over too early tears an outer group apart).
+
+Case numbering: every 13th case of a shard is a "groups" case (own random stream ctx.rng(idx, "groups")); the other cases
+keep the index - hence the random stream, and the "case_idx" shown in their witnesses - they had before that kind was
+interleaved (60 / 300 per shard), the replay index recorded by the framework is the position in the interleaved sequence.
 """
 import datetime
 import os
@@ -46,9 +67,17 @@ RULE = ("case kinds: 'product' = one seeded history (1..4 transactions; deletes 
         "mp writers get limitmb in {default, 1e-5, 2e-4, 2e-3} (tiny posting pools that spill sorted runs); 'bw' = a step-wise "
         "BufferedWriter program against a dict model (sequential, threaded, timer variants); 'async_multi' = 2..4 AsyncWriters "
         "queued behind one lock holder (AsyncWriter behind a held lock with explicit sequencing is also one of the product "
-        "front-ends). A product/mp case is non-trivial when the history has >= 2 documents and the "
+        "front-ends); 'groups' (every 13th case of a shard) = an add-only history of 1..2 (thorough 1..3) transactions of 12..70 (thorough "
+        "..120) hierarchical documents each: outermost groups = pre-order trees with strict levels, 1..3 nested group contexts "
+        "(group() context manager, start_group()/end_group() calls or mixed), root fan-out 0..8, inner fan-out 0..4, childless "
+        "inner documents wrapped in a group of one half of the time, one top-level item in six an ungrouped document; run through "
+        "the reference configuration, 1-2 MpWriter configurations (procs 2..4 x batchsize 1..7/100 x multisegment, subprocess) "
+        "and 1-2 of plain / buffered (limit > number of documents, no sub-minute timer) / async-over-plain configurations; "
+        "monitors: group adjacency per segment in docnum order (final and after optimize) and 8 NestedParent/NestedChildren "
+        "queries per case against a dict model of the trees. A product/mp/groups case is non-trivial when the history has >= 2 documents and the "
         "configuration differs from the reference; distinct = (front-end parameters, storage, packing, transaction-shape "
-        "signature, deletions present, final segment count); bw/async cases: distinct = (variant, opcode sequence / observed "
+        "signature, deletions present, final segment count[, group depth, bracket style, number of outermost groups]); "
+        "bw/async cases: distinct = (variant, opcode sequence / observed "
         "timing order).")
 ASSUMPTIONS = [
     "document numbers and segment layout are not logical content: dumps are keyed by the stored field 'key'",
@@ -74,9 +103,28 @@ ASSUMPTIONS = [
     "save what it was meant to save",
     "a sub-writer process that dies is observed through its traceback on stderr and counted; only a difference in the resulting "
     "index is a violation",
+    "groups: only front-ends that implement grouping take part in the 'groups' cases - the plain SegmentWriter (one segment per "
+    "transaction, documents in call order), MpWriter (overrides start_group/end_group), BufferedWriter and AsyncWriter (both "
+    "inherit IndexWriter's no-op start_group/end_group/group(), which is enough exactly as long as the documents of a group "
+    "reach one underlying SegmentWriter in call order). NOT exercised with groups, because on the unchanged tree they do not "
+    "support them (reported to the lead, not part of this check's verdict): SerialMpWriter (start_group() raises "
+    "AttributeError: '_grouping' is never initialised, and add_document() deals documents round-robin to the sub-writers); a "
+    "BufferedWriter whose limit or flush timer can fire inside a group (the flush puts the first part of the group in its own "
+    "segment), so limit > number of documents of the history and period None/600 s; an AsyncWriter whose writerargs ask for a "
+    "multi-process writer (AsyncWriter does not record/forward start_group/end_group)",
+    "groups: histories are add-only (no deletes/updates), keys unique: what NestedParent/NestedChildren do around deleted "
+    "documents is another property's business",
+    "groups: the relative order of different outermost groups, of ungrouped documents, and the assignment of whole groups to "
+    "segments are not promised and not compared; nested queries are generated only in the form whose answer does not depend on "
+    "them: strict levels; NestedParent(parents = level j alone | every level <= j plus ungrouped, sub-query AND level > j) = "
+    "level-j ancestors of the matching documents; NestedChildren(parents = every level <= j plus ungrouped (level 0 alone only "
+    "when there are no 'note' documents), sub-query AND (level j | the parent set)) = all descendants of the matching level-j "
+    "documents, optionally AND-ed with a term query. Sub-queries that match documents outside that domain (a NestedParent "
+    "sub-query matching a parent, a NestedChildren sub-query matching a non-parent) are not generated; scores of nested "
+    "queries are not compared",
 ]
 SHARDS = {"quick": 4, "thorough": 16}
-BUDGET_S = {"quick": 75, "thorough": 720}
+BUDGET_S = {"quick": 90, "thorough": 720}
 FLOORS = {"c18.configs": 150, "c18.dump.compares": 200, "c18.fe.seg": 30, "c18.fe.serialmp": 16, "c18.fe.buffered": 35,
           "c18.fe.async": 40, "c18.fe.mp": 18, "c18.mp.completed": 18, "c18.storage.file": 40, "c18.storage.nommap": 40,
           "c18.storage.ram": 32, "c18.storage.toram": 32, "c18.packing.compound": 75, "c18.packing.loose": 75,
@@ -87,7 +135,13 @@ FLOORS = {"c18.configs": 150, "c18.dump.compares": 200, "c18.fe.seg": 30, "c18.f
           "c18.bw.view_checks": 190, "c18.bw.dump_checks": 45, "c18.bw.close_checks": 30, "c18.bw.ops_with_buffered_docs": 25,
           "c18.bw.thread_runs": 12, "c18.bw.commit_overlapped_add": 8, "c18.bw.thread_deletes_updates": 30,
           "c18.bw.timer_flush_observed": 6, "c18.asyncmulti.runs": 6, "c18.asyncmulti.dump_checks": 6,
-          "c18.asyncmulti.distinct_lock_orders": 4, "c18.asyncmulti.lock_won_out_of_creation_order": 3}
+          "c18.asyncmulti.distinct_lock_orders": 4, "c18.asyncmulti.lock_won_out_of_creation_order": 3,
+          "c18.cases.groups": 6, "c18.groups.configs": 14, "c18.groups.fe.mp": 7, "c18.groups.fe.seg": 2,
+          "c18.groups.fe.buffered": 2, "c18.groups.fe.async": 1, "c18.groups.mp.merged": 3, "c18.groups.mp.multisegment": 3,
+          "c18.groups.mp.runs_inner_group_closes_on_full_buffer": 3,
+          "c18.groups.mp.runs_inner_group_closes_on_exactly_full_buffer": 1, "c18.groups.adjacency_checks": 25,
+          "c18.groups.adjacency_checks.multisegment": 3, "c18.groups.outer_groups_checked": 105,
+          "c18.groups.nested_compares": 200, "c18.groups.nested_compares.nonempty": 175}
 
 MP_TIMEOUT_S = 60
 
@@ -132,6 +186,9 @@ def make_schema(o):
     # dynamic (glob) fields: their concrete names exist only in the documents, not in Schema.names()
     schema.add("*_dyn", fields.KEYWORD(scorable=True, sortable=o["k_sortable"]), glob=True)
     schema.add("*_txt", fields.TEXT(vector=bool(o["vector"])), glob=True)
+    if o.get("hier"):
+        # 'groups' cases: the level of a document in its hierarchy ("l0".."l3", "note" for an ungrouped document)
+        schema.add("kind", fields.ID(stored=True))
     return schema
 
 
@@ -166,7 +223,7 @@ def gen_doc(rng, key, o, stored_only_ok=True):
 
 def expected_stored(d):
     out = {}
-    for f in ("id", "key", "t", "u", "k", "n", "d", "b", "s"):
+    for f in ("id", "key", "t", "u", "k", "n", "d", "b", "s", "kind"):
         v = d.get("_stored_%s" % f, d.get(f))
         if v is not None:
             out[f] = v
@@ -182,6 +239,8 @@ def model_apply(live, tx):
     """Apply one transaction to the dict model; returns the number of documents it removed/replaced."""
     removed = 0
     for op in tx["ops"]:
+        if op[0] in ("sg", "eg"):
+            continue                    # group brackets ('groups' cases) carry no document
         if op[0] == "delete":
             if live.pop(op[1], None) is not None:
                 removed += 1
@@ -254,6 +313,8 @@ def tx_sig(h):
 
 
 def describe_history(h):
+    if h.get("groups") is not None:
+        return describe_group_history(h)
     return {"opts": h["opts"],
             "txs": [{"commit": tx["commit"],
                      "ops": [[op[0], op[1] if op[0] in ("delete", "delq") else op[1]] for op in tx["ops"]]}
@@ -267,9 +328,25 @@ def describe_history(h):
 
 def apply_ops(w, ops):
     from whoosh import query
+    open_groups = []
     for op in ops:
         if op[0] == "add":
             w.add_document(**op[1])
+        elif op[0] == "sg":
+            # ("sg", "ctx"): the writer.group() context manager; ("sg", "calls"): start_group() / end_group()
+            if op[1] == "ctx":
+                cm = w.group()
+                cm.__enter__()
+                open_groups.append(cm)
+            else:
+                w.start_group()
+                open_groups.append(None)
+        elif op[0] == "eg":
+            cm = open_groups.pop()
+            if cm is None:
+                w.end_group()
+            else:
+                cm.__exit__(None, None, None)
         elif op[0] == "update":
             w.update_document(**op[1])
         elif op[0] == "delete":
@@ -683,6 +760,278 @@ def optimize_ix(ix):
 
 
 # ----------------------------------------------------------------------
+# hierarchical documents written inside writer.group() / start_group()..end_group()  ('groups' cases)
+# ----------------------------------------------------------------------
+
+def gen_group_history(rng, tier):
+    """Add-only history whose transactions are sequences of OUTERMOST groups (trees of documents with strict levels: the
+    root is kind 'l0', the children of an 'l<k>' document are 'l<k+1>'), written in pre-order with 1..3 nested group
+    contexts, with a few ungrouped documents (kind 'note', or a member-less 'l0') between them.  A long outer group holds
+    many small inner groups (also groups of one document), so that an inner group closes at every buffer fill level.
+    Extra keys: groups = [[key, ...] in insertion order] (an ungrouped document is a group of one), nodes = {key: (level,
+    parent key)} (level None for a note), depth = number of nested group contexts."""
+    o = gen_opts(rng)
+    o["hier"] = True
+    ntx = rng.choice([1, 1, 1, 2, 2] if tier == "quick" else [1, 1, 2, 2, 3])
+    depth = rng.choice([1, 2, 2, 3, 3])
+    style = rng.choice(["ctx", "calls", "mixed"])
+    per_tx = rng.randint(12, 70) if tier == "quick" else rng.randint(12, 120)
+    live, nodes, groups, txs = {}, {}, [], []
+    counter = [0]
+
+    def new_doc(kind):
+        key = counter[0]
+        counter[0] += 1
+        d = gen_doc(rng, key, o, stored_only_ok=False)
+        d["kind"] = kind
+        live[d["key"]] = d
+        return d
+
+    def tree(ops, members, level, parent):
+        d = new_doc("l%d" % level)
+        nodes[d["key"]] = (level, parent)
+        members.append(d["key"])
+        nch = 0
+        if level < depth:
+            nch = rng.randint(0 if rng.random() < 0.1 else 1, 8) if level == 0 else rng.choice([0, 1, 1, 2, 2, 3, 4])
+        # level < depth: a document that may have members is written as a group of its own (possibly a group of one)
+        wrap = level == 0 or nch > 0 or (level < depth and rng.random() < 0.5)
+        if wrap:
+            ops.append(("sg", style if style != "mixed" else rng.choice(["ctx", "calls"])))
+        ops.append(("add", d))
+        for _ in range(nch):
+            tree(ops, members, level + 1, d["key"])
+        if wrap:
+            ops.append(("eg",))
+
+    for _ in range(ntx):
+        ops, n0 = [], counter[0]
+        while counter[0] - n0 < per_tx:
+            r = rng.random()
+            if r < 0.12:
+                d = new_doc("note")
+                nodes[d["key"]] = (None, None)
+                groups.append([d["key"]])
+                ops.append(("add", d))
+            elif r < 0.16:
+                d = new_doc("l0")                  # a parent without members, written without a group
+                nodes[d["key"]] = (0, None)
+                groups.append([d["key"]])
+                ops.append(("add", d))
+            else:
+                members = []
+                tree(ops, members, 0, None)
+                groups.append(members)
+        txs.append({"ops": ops, "commit": rng.choice([{}, {}, {"merge": False}, {"merge": False}, {"optimize": True}])})
+    return {"opts": o, "txs": txs, "live": live, "removed": 0, "groups": groups, "nodes": nodes, "depth": depth,
+            "style": style}
+
+
+def describe_group_history(h):
+    """Compact witness: brackets and key:kind per transaction, plus the documents' field values."""
+    txs = []
+    for tx in h["txs"]:
+        parts = []
+        for op in tx["ops"]:
+            if op[0] == "sg":
+                parts.append("(" if op[1] == "ctx" else "[")
+            elif op[0] == "eg":
+                parts.append(")")
+            else:
+                parts.append("%s:%s" % (op[1]["key"], op[1]["kind"]))
+        txs.append({"commit": tx["commit"], "ops": " ".join(parts)})
+    return {"opts": h["opts"], "group_depth": h["depth"], "txs": txs,
+            "docs": {k: {f: v for f, v in d.items() if f not in ("key", "kind", "id")} for k, d in h["live"].items()}}
+
+
+def mp_buffer_events(h, batchsize):
+    """What the multi-process writer's document buffer looks like when groups close, by the documented rule (a full buffer
+    is handed to the sub-writers only when no group is open): (number of inner groups that close inside a still open group
+    while the buffer holds >= batchsize documents, ... == batchsize exactly)."""
+    full = exact = 0
+    for tx in h["txs"]:
+        buf = open_ = 0
+        for op in tx["ops"]:
+            if op[0] == "sg":
+                open_ += 1
+            elif op[0] == "eg":
+                open_ -= 1
+                if open_ > 0 and buf >= batchsize:
+                    full += 1
+                    exact += buf == batchsize
+            else:
+                buf += 1
+                if not open_ and buf >= batchsize:
+                    buf = 0
+    return full, exact
+
+
+def gen_nested_queries(rng, h, n):
+    """[(mechanism label, description, query, expected sorted keys)]: NestedParent / NestedChildren queries whose answer is
+    decided by the hierarchy alone (not by the relative order of different outermost groups or ungrouped documents)."""
+    from vf import model
+    from whoosh import query
+    live, nodes = h["live"], h["nodes"]
+    maxlevel = max([lv for lv, _ in nodes.values() if lv is not None] or [0])
+    if maxlevel == 0:
+        return []
+    have_notes = any(lv is None for lv, _ in nodes.values())
+    by_level = {}
+    for key, (lv, _) in nodes.items():
+        by_level.setdefault(lv, []).append(key)
+    for keys in by_level.values():
+        keys.sort(key=skey)
+    descendants = {}
+    for members in h["groups"]:
+        for i, key in enumerate(members):
+            lv = nodes[key][0]
+            out = []
+            for other in members[i + 1:]:
+                if nodes[other][0] <= lv:
+                    break
+                out.append(other)
+            descendants[key] = out
+
+    def ancestor(key, level):
+        while nodes[key][0] > level:
+            key = nodes[key][1]
+        return key
+
+    def kinds(levels, notes=False):
+        terms = [query.Term("kind", "l%d" % lv) for lv in levels]
+        if notes:
+            terms.append(query.Term("kind", "note"))
+        return terms[0] if len(terms) == 1 else query.Or(terms)
+
+    def base(levels):
+        r = rng.random()
+        if r < 0.2:
+            return query.Every()
+        if r < 0.45:
+            return query.Term("k", rng.choice(model.KVOCAB[:4]))
+        if r < 0.7:
+            return query.Term("t", model.zipf_choice(rng, model.VOCAB))
+        cands = [k for lv in levels for k in by_level.get(lv, [])]
+        return query.Term("id", rng.choice(cands)) if cands else query.Every()
+
+    out = []
+    for _ in range(n):
+        j = rng.randrange(maxlevel)
+        deeper = list(range(j + 1, maxlevel + 1))
+        upto = list(range(j + 1))
+        if rng.random() < 0.5:
+            # the parent query names the parent level only, or every document that is not below it
+            exact = rng.random() < 0.5
+            parents = kinds([j]) if exact else kinds(upto, notes=True)
+            b = base(deeper)
+            q = query.NestedParent(parents, query.And([b, kinds(deeper)]))
+            exp = set(ancestor(k, j) for k, d in live.items()
+                      if nodes[k][0] is not None and nodes[k][0] > j and model.matches(b, d))
+            label = "NestedParent:%s" % ("exact" if exact else "upto")
+        else:
+            # every document that is not below level j is a "parent": the children of a matching level-j document are
+            # exactly its descendants. (With the parent level alone the run would extend over whatever follows the last
+            # member - the next outermost group or an ungrouped document - which depends on the front-end.)
+            exact = j == 0 and not have_notes and rng.random() < 0.5
+            parents = kinds([0]) if exact else kinds(upto, notes=True)
+            b = base([j])
+            wanted = query.And([b, kinds([j]) if rng.random() < 0.6 else parents])
+            exp = set()
+            for k in by_level.get(j, []):
+                if model.matches(b, live[k]):
+                    exp.update(descendants[k])
+            q = query.NestedChildren(parents, wanted)
+            label = "NestedChildren:%s" % ("exact" if exact else "upto")
+            if rng.random() < 0.35:
+                b2 = base(deeper)
+                q = query.And([q, b2])
+                exp = set(k for k in exp if model.matches(b2, live[k]))
+                label += ":and"
+        out.append((label, repr(q), q, sorted(exp, key=skey)))
+    return out
+
+
+def observe_groups(ix, nqs):
+    obs = {}
+    r = ix.reader()
+    try:
+        obs["layout"] = [[sf.get("key") for sf in lr.all_stored_fields()] for lr, _ in r.leaf_readers()]
+        obs["docnum_order"] = [sf.get("key") for _, sf in r.iter_docs()]
+    finally:
+        r.close()
+    with ix.searcher() as s:
+        obs["nested"] = [sorted((hit["key"] for hit in s.search(q, limit=None)), key=skey) for _, _, q, _ in nqs]
+    return obs
+
+
+def adjacency_violation(h, obs):
+    """None, or (mechanism, text): in document-number order the members of every outermost group must form one contiguous
+    run, in insertion order, inside one segment. The order of different outermost groups is free."""
+    layout = obs["layout"]
+    flat = [k for seg in layout for k in seg]
+    if flat != obs["docnum_order"]:
+        return "iter_docs-vs-segments", "iter_docs() order %r / segments %r" % (obs["docnum_order"], layout)
+    allkeys = sorted((k for g in h["groups"] for k in g), key=skey)
+    if sorted(flat, key=lambda k: skey(k or "?")) != allkeys:
+        return "documents", "documents in the index %r / model %r" % (flat, allkeys)
+    group_of = dict((g[0], g) for g in h["groups"])
+    for si, seg in enumerate(layout):
+        i = 0
+        while i < len(seg):
+            g = group_of.get(seg[i])
+            if g is None:
+                root = next(gg[0] for gg in h["groups"] if seg[i] in gg)
+                return "split", ("document %s of the group of %s (members %r) is at position %d of segment %d, not after the "
+                                 "group's first document; segment: %r" % (seg[i], root, group_of[root], i, si, seg))
+            run = seg[i:i + len(g)]
+            if run != g:
+                kind = "order" if sorted(run) == sorted(g) else "split"
+                return kind, "group %r is stored as %r ... at position %d of segment %d: %r" % (g, run, i, si, seg)
+            i += len(g)
+    return None
+
+
+def check_groups(ctx, w, ix, h, nqs, cfgname, phase):
+    """Monitors (a) adjacency and (b) nested queries against the hierarchy, for one configuration's final index."""
+    ok, obs = ctx.guard("c18.groups.observe", w, observe_groups, ix, nqs)
+    if not ok:
+        f = ctx.failures[-1] if ctx.failures else None
+        if f is not None and f["monitor"] == "c18.groups.observe" and not f["mech"].startswith("exc:%s" % cfgname):
+            f["mech"] = f["mech"].replace("exc:", "exc:%s:" % cfgname, 1)
+        return False
+    ctx.count("c18.groups.adjacency_checks")
+    ctx.count("c18.groups.outer_groups_checked", sum(1 for g in h["groups"] if len(g) > 1))
+    bad = adjacency_violation(h, obs)
+    if bad is not None:
+        ctx.fail("c18.groups.adjacency", "%s:%s:%s" % (phase, cfgname, bad[0]), dict(w, segments=obs["layout"]), bad[1])
+        return False
+    if len(obs["layout"]) > 1:
+        ctx.count("c18.groups.adjacency_checks.multisegment")
+    for (label, desc, _, exp), got in zip(nqs, obs["nested"]):
+        ctx.count("c18.groups.nested_compares")
+        if exp:
+            ctx.count("c18.groups.nested_compares.nonempty")
+        if got != exp:
+            ctx.fail("c18.groups.nested", "%s:%s:%s" % (phase, cfgname, label), dict(w, query=desc, segments=obs["layout"]),
+                     "hierarchy says %r / index returns %r" % (exp, got))
+            return False
+    return True
+
+
+def gen_group_cfg(rng, kind, ntx, ndocs):
+    """Front-ends that honour groups (see ASSUMPTIONS): the multi-process writer with small batch sizes, the plain writer,
+    a BufferedWriter that never flushes by itself inside a group, an AsyncWriter in front of a plain writer."""
+    cfg = gen_cfg(rng, kind, ntx)
+    fe = cfg["fe"]
+    if kind == "mp":
+        fe["batchsize"] = rng.choice([1, 2, 3, 4, 5, 6, 7, 2, 3, 4, 5, 7, 100])
+    elif kind == "buffered":
+        fe["limit"] = ndocs + rng.choice([1, 100])
+        fe["period"] = rng.choice([None, None, 600])
+    return cfg
+
+
+# ----------------------------------------------------------------------
 # configurations
 # ----------------------------------------------------------------------
 
@@ -801,8 +1150,10 @@ def run_config(ctx, rng, h, cfg, probes, with_stats, idx, info):
         raise
 
 
-def case_product(ctx, idx, rng, mp):
-    if mp:
+def case_product(ctx, idx, rng, mp, groups=False):
+    if groups:
+        h = gen_group_history(rng, ctx.tier)
+    elif mp:
         # statistics and scores are comparable only when nothing was removed: make that common for the multi-process writer,
         # whose sub-writers (possibly without any document) produce the most unusual segment layouts
         h = gen_history(rng, ctx.tier, addonly=rng.random() < 0.5, dense=rng.random() < 0.7)
@@ -812,12 +1163,20 @@ def case_product(ctx, idx, rng, mp):
     ntx = len(h["txs"])
     no_removal = h["removed"] == 0
     do_opt = rng.random() < 0.35
-    if mp:
-        kinds = ["mp"] * ctx.pick(rng.choice([1, 2]), 2)
+    nqs = []
+    if groups:
+        # the first in-process front-end rotates with the case's position (every shard meets all three early), more are random
+        inproc = ["seg", "buffered", "async"]
+        kinds = ["mp"] * rng.choice([1, 1, 2]) + [inproc[(idx // ctx.nshards // 13 + idx % ctx.nshards) % 3]]
+        kinds += [rng.choice(inproc) for _ in range(ctx.pick(0, 1))]
+        cfgs = [gen_group_cfg(rng, k, ntx, len(h["live"])) for k in kinds]
     else:
-        pool = ["seg", "seg", "serialmp", "buffered", "buffered", "async", "async"]
-        kinds = [rng.choice(pool) for _ in range(ctx.pick(5, 8))]
-    cfgs = [gen_cfg(rng, k, ntx) for k in kinds]
+        if mp:
+            kinds = ["mp"] * ctx.pick(rng.choice([1, 2]), 2)
+        else:
+            pool = ["seg", "seg", "serialmp", "buffered", "buffered", "async", "async"]
+            kinds = [rng.choice(pool) for _ in range(ctx.pick(5, 8))]
+        cfgs = [gen_cfg(rng, k, ntx) for k in kinds]
     info = {}
     built = run_config(ctx, rng, h, REF_CFG, probes, no_removal, idx, info)
     if built is None:
@@ -833,11 +1192,18 @@ def case_product(ctx, idx, rng, mp):
         if not check_reference_against_model(ctx, rw, h, ref, probes):
             ctx.case(("ref-vs-model",), False)
             return
+        if groups:
+            nqs = gen_nested_queries(rng, h, 8)
+            if not check_groups(ctx, rw, rix, h, nqs, "reference", "final"):
+                ctx.case(("ref-vs-hierarchy",), False)
+                return
         ref_opt = None
         if do_opt:
             ok, _ = ctx.guard("c18.optimize", rw, optimize_ix, rix)
             if ok:
                 ok, ref_opt = ctx.guard("c18.observe", rw, observe, reopen(rix.storage, REF_CFG), probes, True)
+            if ok and groups:
+                ok = check_groups(ctx, rw, reopen(rix.storage, REF_CFG), h, nqs, "reference", "optimized")
             if not ok:
                 ref_opt = None
         ndocs = sum(1 for tx in h["txs"] for op in tx["ops"] if op[0] in ("add", "update"))
@@ -866,6 +1232,18 @@ def case_product(ctx, idx, rng, mp):
                 if rec[0] == "blocked":
                     ctx.count("c18.async.blocked_txs")
             same = compare_obs(ctx, cfg["fe"]["kind"], name, w, ref, got, probes, no_removal, "final")
+            if groups and same:
+                ctx.count("c18.groups.configs")
+                ctx.count("c18.groups.fe.%s" % cfg["fe"]["kind"])
+                if cfg["fe"]["kind"] == "mp":
+                    full, exact = mp_buffer_events(h, cfg["fe"]["batchsize"])
+                    ctx.count("c18.groups.mp.%s" % ("multisegment" if cfg["fe"]["multisegment"] else "merged"))
+                    if full:
+                        ctx.count("c18.groups.mp.runs_inner_group_closes_on_full_buffer")
+                        ctx.count("c18.groups.mp.inner_group_closes_on_full_buffer", full)
+                    if exact:
+                        ctx.count("c18.groups.mp.runs_inner_group_closes_on_exactly_full_buffer")
+                same = check_groups(ctx, w, ix, h, nqs, name, "final")
             if same and no_removal:
                 ctx.count("c18.compares.with_scores")
             if same and got["nseg"] > 1:
@@ -883,9 +1261,11 @@ def case_product(ctx, idx, rng, mp):
                     ok, got_opt = ctx.guard("c18.observe", w, observe, reopen(ix.storage, cfg), probes, True)
                 if ok:
                     ctx.count("c18.optimize.compares")
-                    compare_obs(ctx, "optimized", name, w, ref_opt, got_opt, probes, True, "optimized")
+                    if compare_obs(ctx, "optimized", name, w, ref_opt, got_opt, probes, True, "optimized") and groups:
+                        check_groups(ctx, w, reopen(ix.storage, cfg), h, nqs, name, "optimized")
             nontrivial = ndocs >= 2
-            ctx.case((cfg_shape(cfg), tx_sig(h), h["removed"] > 0, got["nseg"]), nontrivial,
+            gshape = ("groups", h["depth"], h["style"], len(h["groups"])) if groups else ()
+            ctx.case((cfg_shape(cfg), tx_sig(h), h["removed"] > 0, got["nseg"]) + gshape, nontrivial,
                      sample={"config": cfg, "transactions": [len(tx["ops"]) for tx in h["txs"]], "docs": ndocs,
                              "live": len(h["live"]), "segments": got["nseg"], "removed": h["removed"]}
                      if ctx.evaluations % 40 == 0 else None)
@@ -1418,7 +1798,17 @@ def run(ctx):
     from vf import model
     model.check_analysis()
     _install_thread_hook()
-    for idx in ctx.cases(quick=60, thorough=300):
+    for idx in ctx.cases(quick=65, thorough=325):
+        # every 13th case of a shard is a 'groups' case with its own random stream; the other cases keep the numbering
+        # (hence the random streams) they had before that kind was interleaved: 60 / 300 per shard
+        pos, shard = divmod(idx, ctx.nshards)
+        if pos % 13 == 12:
+            ctx.reseed_global(idx)
+            ctx.count("c18.cases.groups")
+            case_product(ctx, idx, ctx.rng(idx, "groups"), mp=True, groups=True)
+            report_stray_thread_errors(ctx, idx)
+            continue
+        idx = (pos - pos // 13) * ctx.nshards + shard
         rng = ctx.rng(idx)
         ctx.reseed_global(idx)
         k = idx % 12
